@@ -35,15 +35,26 @@ impl<'a> PrettyPrinter<'a> {
                 if child.kind() == SyntaxKind::Dot {
                     FlowItem::tight(self.arena.text("."))
                 } else if let Some(expr) = child.cast() {
-                    FlowItem::tight(self.convert_expr(ctx, expr))
+                    FlowItem::tight(self.convert_access_target(ctx, expr))
                 } else {
                     FlowItem::none()
                 }
             });
         }
-        self.convert_expr(ctx, field_access.target())
+        self.convert_access_target(ctx, field_access.target())
             + self.arena.text(".")
             + self.convert_ident(field_access.field())
+    }
+
+    /// Convert the target of a field access. A number written like `1.` would run into the dot
+    /// of the access (`1. .abs()` must not become `1..abs()`), so it keeps a blank behind it.
+    fn convert_access_target(&'a self, ctx: Context, target: Expr<'a>) -> ArenaDoc<'a> {
+        let doc = self.convert_expr(ctx, target);
+        if target.is_literal() && target.to_untyped().text().ends_with('.') {
+            doc + " "
+        } else {
+            doc
+        }
     }
 
     /// Convert the node as dot chain, if in code, or in markup with at least two FieldAccess and one FuncCall.
@@ -139,7 +150,8 @@ impl<'a> PrettyPrinter<'a> {
                         // There is no comment allowed, so we can directly convert args.
                         Some(self.convert_args(ctx, func_call.args()))
                     } else {
-                        node.cast().map(|expr| self.convert_expr(ctx, expr))
+                        node.cast()
+                            .map(|expr| self.convert_access_target(ctx, expr))
                     }
                 },
             )
